@@ -29,3 +29,9 @@ package perunio
 //@   ensures streaming() && result == nil ==> rpos(reader) == old(rpos(reader)) + 1 + streamAt(reader, old(rpos(reader)))
 //@   ensures old(b.Int) != nil ==> b.Int == old(b.Int)
 //@   ensures old(b.Int) == nil && b.Int != nil ==> fresh(b.Int)
+
+// Encode writes the values one after the other to the writer (the encoders of the individual types are not under contract:
+// output abstracted, any error possible).
+//@ func Encode
+//@   trusted
+//@   requires writer != nil
